@@ -38,6 +38,28 @@ fn gen_cfg(t: &mut Tape) -> Cfg {
     }
 }
 
+/// Wraps the repository's compiler and records what every round of the resolve loop compiled, so
+/// that the loop's trajectory (how many rounds, did it converge) is observed, not inferred.
+pub struct Recording {
+    pub inner: tx3_cardano::Compiler,
+    pub rounds: Vec<(Vec<u8>, u64)>,
+}
+
+impl tx3_tir::compile::Compiler for Recording {
+    type CompilerOp = tx3_tir::model::v1beta0::CompilerOp;
+    type Expression = tx3_tir::model::v1beta0::Expression;
+    fn compile(&mut self, tir: &AnyTir) -> Result<tx3_tir::compile::CompiledTx, tx3_tir::compile::Error> {
+        let r = self.inner.compile(tir)?;
+        self.rounds.push((r.payload.clone(), r.fee));
+        Ok(r)
+    }
+    fn reduce_op(&self, op: Self::CompilerOp) -> Result<Self::Expression, tx3_tir::reduce::Error> {
+        self.inner.reduce_op(op)
+    }
+}
+
+pub const MAX_ROUNDS: usize = 30;
+
 pub struct Outcome {
     pub judged: bool,
     pub rounds_hint: usize,
@@ -58,8 +80,8 @@ pub fn judge(sc: &Scenario, cfg: &Cfg, rc: &mut RCase, class: &str) -> Result<Ou
     };
     let args = sc.args();
     let store = MemStore::new(sc.utxos());
-    let mut compiler = pipeline::compiler(cfg);
-    let res = guard(|| block_on(tx3_resolver::resolve_tx(AnyTir::V1Beta0(tir), &args, &mut compiler, &store, 30)));
+    let mut compiler = Recording { inner: pipeline::compiler(cfg), rounds: vec![] };
+    let res = guard(|| block_on(tx3_resolver::resolve_tx(AnyTir::V1Beta0(tir), &args, &mut compiler, &store, MAX_ROUNDS)));
     let c = match res {
         Err(_) => {
             rc.label("panic_counted_for_C14");
@@ -94,10 +116,47 @@ pub fn judge(sc: &Scenario, cfg: &Cfg, rc: &mut RCase, class: &str) -> Result<Ou
     let straddles = STEPS.iter().any(|s| lo - slack < *s && *s <= hi + slack);
     if body_fee != BigInt::from(c.fee) {
         detail.push_str(&format!(" ; change output {} (would be {} under the reported fee)", ch1, ch2));
-        if straddles && rc.tolerated("fee_oscillation_at_cbor_width_step") {
-            rc.label("known:oscillation");
-            return Ok(Outcome { judged: true, rounds_hint: 30, straddles_step: true });
+        // Is this the recorded defect - the loop ran into its round bound without converging and returned
+        // its last round? Observed, not inferred: the recording compiler saw every round. The defect is
+        // recognised only when (a) the bound was hit (MAX_ROUNDS + 2 compilations), (b) every round reports
+        // the linear fee of its own payload and carries in its body the fee the previous round reported
+        // (the protocol of the loop is intact), (c) the last two rounds differ, (d) what was returned is the
+        // last round. A converged loop with a wrong fee, a loop that stops early, or a fee off the formula
+        // is none of that and is reported.
+        let f = |len: usize| cfg.coeff as u128 * len as u128 + cfg.constant as u128 + margin as u128;
+        let rounds = &compiler.rounds;
+        let n = rounds.len();
+        let bound_hit = n == MAX_ROUNDS + 2;
+        let two_cycle = if bound_hit && rounds[n - 1].0 == c.payload && rounds[n - 1].0 != rounds[n - 2].0 {
+            let decoded: Vec<Option<dec::DTx>> = rounds.iter().map(|(p, _)| dec::conway(p).ok()).collect();
+            let consistent = (0..n).all(|i| {
+                let Some(di) = &decoded[i] else { return false };
+                let prev_fee = if i == 0 { 0 } else { rounds[i - 1].1 };
+                rounds[i].1 as u128 == f(rounds[i].0.len()) && di.fee.clone().unwrap_or_default() == BigInt::from(prev_fee)
+            });
+            if consistent {
+                // same inputs over the tail => only a width step can change the size
+                let tail: Vec<_> = decoded[n - 6..].iter().map(|d| d.as_ref().map(|d| d.inputs.clone())).collect();
+                Some(tail.iter().all(|t| *t == tail[0]))
+            } else {
+                None
+            }
+        } else {
+            None
+        };
+        detail.push_str(&format!(" ; compilations={} bound_hit={}", n, bound_hit));
+        match two_cycle {
+            Some(true) if straddles && rc.tolerated("fee_oscillation_at_cbor_width_step") => {
+                rc.label("known:oscillation");
+                return Ok(Outcome { judged: true, rounds_hint: 30, straddles_step: true });
+            }
+            Some(false) if rc.tolerated("fee_oscillation_by_alternating_selection") => {
+                rc.label("known:oscillation_selection");
+                return Ok(Outcome { judged: true, rounds_hint: 30, straddles_step: false });
+            }
+            _ => {}
         }
+        detail.push_str(&format!(" ; non_convergence={:?} (Some(true): bound hit, loop protocol intact, same inputs; Some(false): same but the selection changes between rounds; None: not the recorded defect)", two_cycle));
         return Err(Failure::new("body_fee_differs_from_reported_fee", detail, rendered()));
     }
     if c.fee as u128 != formula {
